@@ -10,7 +10,11 @@ and must answer identically; a rejected edit must leave ids and raw content unto
 Second round: every edit is also made on a fresh rebuild of the content before it (edits depend on the content only), equal
 arguments of one history are ONE Python object, the caller's argument containers and the objects queries returned are
 overwritten after the call (containers cross the API as values), get_right_hand_side is probed after every query (queries
-leave no trace); GenEditFacts.v also carries the aliasing facts (harness/c03_facts.py::extract_alias)."""
+leave no trace); GenEditFacts.v also carries the aliasing facts (harness/c03_facts.py::extract_alias).
+Third round: right after every edit a deep copy of the model must answer get_right_hand_side / get_stoichiometries like a fresh
+rebuild (an edit leaves no stale memo behind, seeded/C03-8), coefficients given by name through update_reaction have a family of
+their own, the presence of the memo after every step is compared with the state machine, GenEditFacts.v carries which mutator
+bodies can build or read the cache (harness/c03_facts.py::extract_cache_uses)."""
 
 from __future__ import annotations
 
@@ -94,7 +98,7 @@ def extract_facts() -> dict:
             body = [ast.unparse(s) for s in w.body]
             deco_ok = body == ["self = cast(Model, args[0])", "self._cache = None", "return method(*args, **kwargs)"]
     return {"invalidates": inval, "unknown_mutators": unknown, "decorator_clears_first": deco_ok,
-            "missing_methods": [m for m in METHODS if m not in inval]} | c03_facts.extract(tree)
+            "missing_methods": [m for m in METHODS if m not in inval]} | c03_facts.extract(tree) | c03_facts.extract_cache_uses(tree, METHODS)
 
 
 def gen() -> dict:
@@ -114,6 +118,7 @@ def gen() -> dict:
         + clist('"' + u + '"%string' for u in f["unknown_mutators"])
         + ".\n"
         + c03_facts.coq(f)
+        + c03_facts.coq_cache_uses(f, METHODS)
     )
     common.write_if_changed(common.area_dir(AREA) / "GenEditFacts.v", text)
     return f
@@ -635,6 +640,22 @@ CORPUS: list[list[tuple]] = [
      ("q_args", None, 0), ("update_derived", 13, None, [12]), ("q_args", None, 0), ("q_parvals",), ("q_derpar",),
      ("update_derived", 13, None, [14]), ("q_args", None, 0), ("update_derived", 13, None, [31]), ("q_args", None, 0),
      ("update_derived", 13, None, [11]), *_ALLQ],
+    # update_reaction(stoichiometry=...) with a coefficient given by NAME, after a query: every answer follows the new
+    # stoichiometry at once; then rate arguments + named coefficient together, an edit of the named parameter, a name the model
+    # does not know (accepted; the next cache construction reports the missing dependency), and back to numbers (seeded/C03-8)
+    [("add_parameter", 11, ("plain", 2)), ("add_parameter", 13, ("plain", 3)), ("add_parameter", 36, ("plain", 2)),
+     ("add_variable", 12, ("plain", 4)), ("add_variable", 16, ("plain", 1)),
+     ("add_reaction", 14, 4, [12, 11], [(12, ("stat", -1)), (16, ("stat", 1))]), ("q_rhs", None, 0),
+     ("update_reaction", 14, None, None, [(12, ("stat", -1)), (16, ("named", 36))]), *_ALLQ,
+     ("update_reaction", 14, None, [12, 13], [(12, ("named", 36)), (16, ("stat", 1))]), *_ALLQ,
+     ("update_parameter", 36, ("plain", 5)), *_ALLQ,
+     ("update_reaction", 14, None, None, [(12, ("stat", -1)), (16, ("named", 41))]), *_ALLQ,
+     ("update_reaction", 14, None, None, [(12, ("stat", -1)), (16, ("stat", 2))]), *_ALLQ],
+    # the same on a model that was never asked anything before the update (seeded/C03-8, "no query before")
+    [("add_parameter", 11, ("plain", 2)), ("add_parameter", 36, ("plain", 3)), ("add_variable", 12, ("plain", 4)),
+     ("add_variable", 16, ("plain", 1)), ("add_reaction", 14, 4, [12, 11], [(12, ("stat", -1)), (16, ("stat", 1))]),
+     ("update_reaction", 14, None, None, [(12, ("stat", -1)), (16, ("named", 36))]), ("q_stoich", None, 0), ("q_rhs", None, 0),
+     ("update_reaction", 14, 2, [12, 11], [(16, ("named", 12))]), ("q_rhs", [(12, 2), (16, 1)], 1), *_ALLQ],
 ]
 
 
@@ -770,7 +791,7 @@ Import ListNotations.
 def corr_file(hists: list[str]) -> str:
     return (
         CORR_HEADER
-        + "Definition cases : list (list (op * obs)) := [\n  "
+        + "Definition cases : list (list (op * obs * bool)) := [\n  "
         + ";\n  ".join(hists)
         + "\n].\nEval vm_compute in (filter_idx (fun h => negb (history_ok h)) cases).\n"
     )
@@ -893,6 +914,14 @@ def _count(stats: dict | None, fid: str, example) -> None:
         stats.setdefault("known_example", {}).setdefault(fid, example)
 
 
+class ObsList(list):
+    """the observations of one history; `cached[i]`: did the model hold a memoised cache right after step i?"""
+
+    def __init__(self) -> None:
+        super().__init__()
+        self.cached: list[bool] = []
+
+
 def run_history(ops: list[tuple], stats: dict | None = None):
     """-> (observations, violation or None).  Raises Discard for histories outside the modelled domain.
 
@@ -908,7 +937,7 @@ def run_history(ops: list[tuple], stats: dict | None = None):
     from mxlpy import Model
 
     m = Model()
-    obs = []
+    obs = ObsList()
     viol = None
     listed_batch = batch_listed()
     inp = Inputs()
@@ -917,6 +946,7 @@ def run_history(ops: list[tuple], stats: dict | None = None):
             raw: list = []
             a = ask(m, op, raw)
             obs.append(a)
+            obs.cached.append(m._cache is not None)  # noqa: SLF001 -- memo presence, compared with the state machine
             if viol is not None:
                 continue
             # oracle: a freshly built model with the same content answers identically
@@ -949,7 +979,9 @@ def run_history(ops: list[tuple], stats: dict | None = None):
             # (one that has not been asked `op` before)
             if b[0] != "rebuild-failed":
                 try:
-                    pa = ask(m, PROBE)
+                    # asked of a COPY (memo state included): the model itself sees exactly the calls of the history, so that
+                    # the presence of its memo can be compared with the state machine step by step
+                    pa = ask(copy.deepcopy(m), PROBE)
                     pb = ask(rebuild_fresh(m), PROBE)
                 except Discard:
                     continue
@@ -979,6 +1011,7 @@ def run_history(ops: list[tuple], stats: dict | None = None):
             except Exception as e:  # noqa: BLE001
                 exc = e
                 rej = errcode(e)
+            obs.cached.append(m._cache is not None)  # noqa: SLF001
             after = deep_content(m)
             if rej is not None and after != before:
                 # recorded finding (tree before fixes/C03-batch-edits-atomic.diff): a batch form is a plain fold and
@@ -1019,6 +1052,10 @@ def run_history(ops: list[tuple], stats: dict | None = None):
                             viol = (i, f"{op[0]} keeps the caller's {'mapping' if cls == 'map' else 'list'} object: after the call the "
                                        f"caller overwrote its own argument and the model changed without any edit: {after} -> {now}")
                             break
+            # an edit leaves nothing behind that a later query could see: a COPY of the model as the edit left it (memo
+            # state included; the model itself is not asked, so the history stays what it is) answers like a fresh rebuild
+            if viol is None:
+                viol = _edit_probe(m, op, i, rej)
             # single name space: the registry is exactly the union of the containers
             if viol is None:
                 ck = content_keys(m)
@@ -1032,6 +1069,29 @@ def run_history(ops: list[tuple], stats: dict | None = None):
     return obs, viol
 
 
+EDIT_PROBES = (("q_args", None, 0), ("q_rhs", None, 0), ("q_stoich", None, 0))
+
+
+def _edit_probe(m, op: tuple, i: int, rej):
+    """right after an edit (accepted or rejected): get_args / get_right_hand_side / get_stoichiometries of a deep copy of the model
+    against the same questions to a freshly built model with the same content -> violation or None"""
+    try:
+        mc = copy.deepcopy(m)
+        fresh = rebuild_fresh(m)
+    except Exception:  # noqa: BLE001 -- cannot happen while the registry is consistent; then this oracle is skipped
+        return None
+    for pq in EDIT_PROBES:
+        try:
+            pa = ask(mc, pq)
+            pb = ask(fresh, pq)
+        except Discard:
+            return None
+        if pa != pb:
+            return (i, f"right after {op[0]} ({'accepted' if rej is None else 'rejected'}), before any other call, {pq[0]} answers {pa} "
+                       f"but a freshly built model with the same content answers {pb}: the edit left a stale memo behind")
+    return None
+
+
 def _coverage(stats: dict, m, op: tuple) -> None:
     """how often the generated edits hit the situations the aliasing / batch oracles need"""
     from mxlpy.types import InitialAssignment
@@ -1040,6 +1100,8 @@ def _coverage(stats: dict, m, op: tuple) -> None:
         pars = m.get_raw_parameters(as_copy=False)
         if any(isinstance(getattr(pars.get(nm(n)), "value", None), InitialAssignment) for n, _q in op[1]):
             stats["scale_batches_with_assigned_parameter"] = stats.get("scale_batches_with_assigned_parameter", 0) + 1
+    if op[0] == "update_reaction" and op[4] and any(cf[0] == "named" for _c, cf in op[4]) and nm(op[1]) in m.get_raw_reactions(as_copy=False):
+        stats["update_reaction_with_named_coefficient"] = stats.get("update_reaction_with_named_coefficient", 0) + 1
     if op[0] in ("add_reaction", "update_reaction") and op[4]:
         vs = set(m.get_raw_variables(as_copy=False))
         for _c, cf in op[4]:
@@ -1089,6 +1151,37 @@ def gen_history(rng, length: int):
     return ops
 
 
+def gen_named_update(rng, base: list[tuple], base2: list[tuple], base3: list[tuple]) -> list[tuple]:
+    """one history of the named-coefficient family (see check)"""
+    pop, rxns, pars, ders = rng.choice([
+        (base, [14], [11, 33], [13]),
+        (base2, [14, 35], [11, 33, 36], [13, 34]),
+        (base3, [14, 37, 38], [11, 33, 36, 39], [13]),
+    ])
+    rx = rng.choice(rxns)
+    r = rng.random()
+    named = (rng.choice(pars) if r < 0.55 else rng.choice([12, 16]) if r < 0.7 else rng.choice(ders) if r < 0.85
+             else 0 if r < 0.92 else 41)
+    tg = rng.sample([12, 16], rng.choice([1, 2, 2]))
+    k = rng.randrange(len(tg))
+    sto = [(c, ("named", named) if j == k else gen_coef(rng, pars + [12, 16])) for j, c in enumerate(tg)]
+    f, a = (None, None)
+    if rng.random() < 0.35:
+        f, a = gen_fn(rng, pars + [12, 16] + ders)
+    pre = rng.choice([[], [], [("q_rhs", None, 0)], [("q_stoich", None, 0)], [("q_args", None, 0)], [("q_fluxes", None, 0), ("q_ic",)]])
+    if named in pars:
+        heal = ("update_parameter", named, ("plain", rng.choice([-1, 3, 5])))
+    elif named in (12, 16):
+        heal = ("update_variable", named, ("plain", rng.choice([-1, 3, 5])))
+    else:
+        heal = ("update_parameter", 11, ("plain", rng.choice([-1, 3, 5])))
+    qs = list(_ALLQ)
+    if rng.random() < 0.5:
+        qs = [("q_stoich", [(12, rng.randint(-2, 2)), (16, rng.randint(-2, 2))], rng.randint(0, 2)),
+              ("q_rhs", [(12, rng.randint(-2, 2)), (16, rng.randint(-2, 2))], rng.randint(0, 2))] + qs
+    return list(pop) + pre + [("update_reaction", rx, f, a, sto)] + qs + [heal] + list(_ALLQ)
+
+
 def check(run: Run) -> None:
     global _FINDINGS
     _FINDINGS = None
@@ -1106,7 +1199,11 @@ def check(run: Run) -> None:
         "scale_parameters batches biased towards an assigned parameter plus a parameter it reads, a third populated model with two "
         "reactions built from one mapping, all ordered pairs of query kinds with non-initial states; every edit is also made on a fresh "
         "rebuild of the pre-state, argument containers and returned objects are overwritten by the caller, the rhs is probed after "
-        "every query; non-trivial = history contains a query followed later by a mutator and another query; distinct by content"
+        "every query; third round: 30 (quick) / 120 (thorough) histories `populate ; [query] ; update_reaction with a coefficient given by "
+        "NAME (parameter / variable / derived / time / unknown name) ; queries ; edit of the named quantity ; every query` from an own "
+        "random stream, right after EVERY edit get_right_hand_side and get_stoichiometries of a deep copy of the model are compared with "
+        "a fresh rebuild, and the presence of the memoised cache after every step is part of the comparison with the state machine; "
+        "non-trivial = history contains a query followed later by a mutator and another query; distinct by content"
     )
     run.check_proofs(AREA, PROPS)
     run.check_proofs("editproofs", "PropsC03b.v")  # registry / rejected-edit / name-reuse theorems
@@ -1122,7 +1219,10 @@ def check(run: Run) -> None:
         "batch forms: modelled in the two forms harness/c03_facts.py recognises statement by statement (plain fold / validate-first "
         "of fixes/C03-batch-edits-atomic.diff); Mapping arguments as the list of pairs the dict is built from",
         "fact extractor (decorator presence per method, unknown container-writing methods, form of the batch methods, where the arity "
-        "check sits) and correspondence harness are trusted glue",
+        "check sits, which mutator bodies mention a cache-building method of Model or read self._cache -- syntactic call graph over "
+        "class Model) and correspondence harness are trusted glue; the memo presence is read from the private attribute Model._cache",
+        "coq/edit/Prequery.v (a mutator that asks a cache-building getter between the decorator and its writes) is a regression model of "
+        "the seeded shape, proved about but not run against the code (the code has no such mutator: C03_cache_uses_pinned)",
     ]
     rng = common.rng_for(run.seed, "c03")
     hists: list[list[tuple]] = [list(h) for h in CORPUS]
@@ -1185,13 +1285,24 @@ def check(run: Run) -> None:
     for qa in qs:
         hists.append(base3 + [qa] + [qb for qb in qs])
         n_sys += 1
+    # coefficients given by NAME through update_reaction (own random stream, so the histories above and below stay what
+    # they were): `populate ; [query] ; update_reaction(.., stoichiometry={.. var: "name" ..}) ; every query ; edit of the
+    # named quantity ; every query` -- the name is a parameter, an assigned parameter, a variable, a derived quantity, time or
+    # (rarely) unknown to the model (seeded/C03-8)
+    rng_n = common.rng_for(run.seed, "c03-named")
+    n_named = 0
+    for _ in range(120 if thorough else 30):
+        hists.append(gen_named_update(rng_n, base, base2, base3))
+        n_sys += 1
+        n_named += 1
     n_rand = 4000 if thorough else 500
     for _ in range(n_rand):
         hists.append(gen_history(rng, rng.randint(3, 14)))
 
     dist = {"histories": 0, "systematic": n_sys, "discarded": 0, "ops": {}, "rejected_edits": 0, "accepted_edits": 0,
             "query_answers": 0, "query_errors": 0, "stale_pattern": 0, "batch_partial": 0, "corpus": len(CORPUS), "known": {},
-            "shared_argument_objects": 0, "scale_batches_with_assigned_parameter": 0, "variable_dependent_coefficients": 0}
+            "shared_argument_objects": 0, "scale_batches_with_assigned_parameter": 0, "variable_dependent_coefficients": 0,
+            "named_update_histories": n_named, "update_reaction_with_named_coefficient": 0}
     coq_h, kept = [], []
     n_viol = 0
     for h in hists:
@@ -1223,7 +1334,7 @@ def check(run: Run) -> None:
                 n_viol += 1
                 run.violation(f"C03 step {viol[0]}: {viol[1]}", {"kind": "c03", "history": h[: viol[0] + 1]})
             continue
-        coq_h.append(clist(f"({coq_op(op)}, {coq_obs(ob)})" for op, ob in zip(h, obs)))
+        coq_h.append(clist(f"({coq_op(op)}, {coq_obs(ob)}, {'true' if cb else 'false'})" for op, ob, cb in zip(h, obs, obs.cached)))
         kept.append(h)
     if hists:
         run.sample({"history": hists[-1]})
@@ -1277,16 +1388,26 @@ def check(run: Run) -> None:
     # argument choices of every mutator, the populated model using each parameter in a rate, a derived
     # quantity, an initial assignment and as a named / computed stoichiometric coefficient
     if (run.broken_obligations or run.broken_correspondence) and n_viol == 0:
-        found = _targeted_search(rng, base, 25)
+        found = _targeted_search(rng, base, 25 if thorough else 12, named=(base, base2, base3))
         run.coverage["targeted_search_histories"] = found[1]
         if found[0] is not None:
             h, viol = found[0]
             run.violation(f"C03 step {viol[0]}: {viol[1]}", {"kind": "c03", "history": h[: viol[0] + 1]})
 
 
-def _targeted_search(rng, base: list[tuple], rounds: int):
+def _targeted_search(rng, base: list[tuple], rounds: int, named: tuple | None = None):
     """-> ((history, violation) | None, histories tried)"""
     tried = 0
+    # coefficients given by name through update_reaction first (cheap, cf. seeded/C03-8)
+    for _ in range(60 if named is not None else 0):
+        h = gen_named_update(rng, *named)
+        tried += 1
+        try:
+            _obs, viol = run_history(h)
+        except Exception:  # noqa: BLE001 -- Discard included; the search must not crash the check
+            continue
+        if viol is not None:
+            return (h, viol), tried
     # parameter 36 is used ONLY as a named and as a computed stoichiometric coefficient (nothing else reads it)
     populated = base + [("add_derived", 34, 2, [33, 11]), ("add_parameter", 36, ("plain", 2)),
                         ("add_reaction", 35, 4, [13, 12], [(16, ("named", 36)), (12, ("dyn", 1, [36]))])]
